@@ -37,3 +37,94 @@ fn c12_client_reports_every_gap_and_duplicate() {
     }
     kani::cover!(model_last.is_some(), "some change delivered");
 }
+
+/// Server side, after the snapshot / resume read returned change id L: whatever the live queue
+/// holds (0..=2 consecutive ids from any start >= 1), whatever id the matcher last broadcast
+/// (S >= the queued ids), and however far each of the up-to-5 further catch-up reads gets —
+/// if the block ends without an error event, the subscriber has received exactly L+1, L+2, …, F
+/// in order, no duplicate and no gap, and F covers everything that was broadcast before the
+/// hand-over (F >= S).  Otherwise an error event ended the stream.
+#[kani::proof]
+#[kani::unwind(7)]
+fn c12_server_reconcile_is_contiguous_or_errors() {
+    use server::*;
+    let l: u64 = kani::any();
+    kani::assume(l <= 20);
+    let qlen: usize = kani::any();
+    kani::assume(qlen <= 2);
+    let qfirst: u64 = kani::any();
+    kani::assume(qfirst >= 1 && qfirst <= 24);
+    let last_sent: u64 = kani::any();
+    // the matcher's "last id sent" is at least as new as anything queued, and ids are dense:
+    // what was broadcast before we subscribed (<= qfirst-1) and what the snapshot saw overlap or touch
+    kani::assume(last_sent <= 26);
+    kani::assume(qlen == 0 || last_sent >= qfirst + qlen as u64 - 1);
+    let reads: [u8; 5] = kani::any();
+    let read_fails: [u8; 5] = kani::any();
+    let mut i = 0;
+    while i < 5 {
+        kani::assume(reads[i] <= 2 && read_fails[i] <= 2);
+        i += 1;
+    }
+    let matcher = MatcherHandle { last_sent: ChangeId(last_sent), reads, read_fails, n_reads: core::cell::Cell::new(0) };
+    let evt = EvtTx { next_expected: core::cell::Cell::new(l + 1), broken: core::cell::Cell::new(false), errors: core::cell::Cell::new(0), changes: core::cell::Cell::new(0), closed: kani::any() };
+    let queue = QueueRx { first: qfirst, len: qlen, taken: 0, disconnected: kani::any() };
+    let f = venv::task::block_on(reconcile_after_snapshot(&matcher, ChangeId(l), queue, &evt, BytesMut, CancellationToken));
+    assert!(!evt.broken.get(), "C12: the subscriber was sent a change id that is not the successor of the previous one (gap, duplicate or event after an error)");
+    if evt.errors.get() == 0 && !evt.closed {
+        // no error event: either everything is consistent, or a read failed with a send error
+        let send_failed = {
+            let mut any = false;
+            let mut k = 0;
+            while k < 5 {
+                if k < matcher.n_reads.get() && read_fails[k] == 1 {
+                    any = true;
+                }
+                k += 1;
+            }
+            any
+        };
+        if !send_failed {
+            assert!(f.0 + 1 == evt.next_expected.get(), "C12: resume point is not the last id delivered");
+            if qlen == 0 {
+                // nothing buffered: whatever the matcher broadcast before we subscribed can only come
+                // from the database, so the read must have reached it (later events are still in
+                // the broadcast receiver and are forwarded after the hand-over)
+                assert!(f.0 >= last_sent || last_sent <= l, "C12: the stream continues although changes broadcast before the subscriber attached were never delivered");
+            }
+            if qlen > 0 {
+                assert!(f.0 >= qfirst + qlen as u64 - 1, "C12: a buffered live event was neither delivered nor covered by the catch-up read");
+            }
+        }
+    }
+    kani::cover!(evt.errors.get() == 0 && evt.changes.get() >= 2, "several changes delivered");
+    kani::cover!(evt.errors.get() == 1, "gave up with an error event");
+}
+
+/// live forwarding after the hand-over: when the broadcast receiver reports that the subscriber
+/// fell behind (events were skipped) or that the channel closed, nothing more is forwarded — the
+/// stream stops instead of continuing past the gap; a received event is forwarded unchanged
+#[kani::proof]
+#[kani::unwind(4)]
+fn c12_forwarder_stops_when_events_were_skipped() {
+    use server::*;
+    let matcher = MatcherHandle { last_sent: ChangeId(0), reads: [0; 5], read_fails: [0; 5], n_reads: core::cell::Cell::new(0) };
+    let which: u8 = kani::any();
+    kani::assume(which < 3);
+    let id: u64 = kani::any();
+    let skipped: u64 = kani::any();
+    let res = match which {
+        0 => Ok((Bytes, QueryEventMeta::Change(ChangeId(id)))),
+        1 => Err(RecvError::Lagged(skipped)),
+        _ => Err(RecvError::Closed),
+    };
+    let out = forward_on_recv(res, &matcher);
+    match which {
+        0 => {
+            assert!(matches!(out, venv::ArmOutcome::Value((_, QueryEventMeta::Change(ChangeId(x)))) if x == id), "C12: a live event was not forwarded unchanged")
+        }
+        _ => {
+            assert!(matches!(out, venv::ArmOutcome::Return), "C12: the live stream continues after the subscriber missed events (or after the channel closed) instead of ending")
+        }
+    }
+}
